@@ -23,6 +23,14 @@ Er(kind, st)== [x |-> "err", k |-> kind, st |-> st]
 Top(w, st)  == [x |-> "top", why |-> w, st |-> st]
 \* argument errors carry the position (C12, C20)
 ErArg(kind, pos, st) == [x |-> "err", k |-> kind, i |-> pos, st |-> st]
+\* E3 (C20): "... naming the function".  An extension value that carries its registered name (`nm`, attached when the registry
+\* becomes the root frame) names itself in its argument errors, whether it is called directly, by a higher-order built-in, through
+\* a chain or a partial application.  Only a call site that reaches it through a variable of ANOTHER name (an alias, a lambda
+\* parameter) leaves the name open: the statement does not say whether the alias or the registered name is "the function".
+ErArgF(kind, pos, fn, cx) ==
+    IF "nm" \in DOMAIN fn /\ (IF "cn" \in DOMAIN cx THEN cx.cn = fn.nm ELSE TRUE)
+    THEN [x |-> "err", k |-> kind, i |-> pos, fname |-> fn.nm, st |-> cx.st]
+    ELSE ErArg(kind, pos, cx.st)
 
 Then(R, K(_)) == IF R.x = "ok" THEN K(R) ELSE R
 
@@ -456,7 +464,7 @@ ExtCall(fn, args0, cx) ==
              a2 == a1 \o [i \in 1..fillN |-> Undef]
              n2 == Len(a2)
     IN
-    IF (fn.variadic /\ n2 < np - 1) \/ (~fn.variadic /\ n2 # np) THEN ErArg("ArgCount", argc, st)
+    IF (fn.variadic /\ n2 < np - 1) \/ (~fn.variadic /\ n2 # np) THEN ErArgF("ArgCount", argc, fn, cx)
     ELSE LET parOf(i) == IF i <= np THEN ps[i] ELSE ps[np]
              cs == [i \in 1..n2 |-> Convert(a2[i], parOf(i))]
              bad == {i \in 1..n2 : cs[i].ok = "no"}
@@ -464,7 +472,7 @@ ExtCall(fn, args0, cx) ==
              firstBad == IF bad = {} THEN 0 ELSE CHOOSE i \in bad : \A j \in bad : i <= j
     IN
     IF open # {} /\ (bad = {} \/ (\E i \in open : i < firstBad)) THEN Top("conversion left open by the statement", st)
-    ELSE IF bad # {} THEN ErArg("ArgType", firstBad, st)
+    ELSE IF bad # {} THEN ErArgF("ArgType", firstBad, fn, cx)
     ELSE LET fixedN == IF fn.variadic THEN np - 1 ELSE np
              echoes == [i \in 1..fixedN |-> cs[i].echo] \o (IF fn.variadic THEN <<Arr([i \in 1..(n2 - fixedN) |-> cs[fixedN + i].echo])>> ELSE <<>>)
          IN  CASE fn.res \in {"echo", "two"} -> Ok(Arr(echoes), st)
@@ -581,6 +589,7 @@ ApplyTransformIds(fn, sel, i, clone, next, st) ==
 FnArity(fn) == CASE fn.k = "lambda" -> Len(fn.ps)
                  [] fn.k = "partial" -> Cardinality({i \in 1..Len(fn.args) : fn.args[i].k = "Placeholder"})
                  [] fn.k = "builtin" -> BuiltinArity(fn.nm)
+                 [] fn.k = "ext" -> Len(fn.ps)          \* a registered Go function takes as many as it declares
                  [] OTHER -> 1
 Clamp(n, lo, hi) == IF n < lo THEN lo ELSE IF n > hi THEN hi ELSE n
 HofArgs(fn, v, i, arr) == SubSeq(<<v, IntV(i), arr>>, 1, Clamp(FnArity(fn), 1, 3))
@@ -955,7 +964,9 @@ Eval(node, ctx, f, st) ==
            Then(Eval(node.fn, ctx, f, st), LAMBDA F :
                 IF ~IsFn(F.r) THEN Er("NonCallable", F.st)
                 ELSE Then(EvalList(node.args, 1, <<>>, ctx, f, F.st), LAMBDA L :
-                          Call(F.r, L.rs, [st |-> L.st, site |-> ctx, hasSite |-> TRUE])))
+                          \* cn: the name the call site uses for the function ("" when the callee is not a plain variable)
+                          Call(F.r, L.rs, [st |-> L.st, site |-> ctx, hasSite |-> TRUE,
+                                           cn |-> IF node.fn.k = "Variable" THEN node.fn.nm ELSE IF IsFn(F.r) /\ "nm" \in DOMAIN F.r THEN F.r.nm ELSE ""])))
       [] node.k = "Apply" ->
            IF node.r.k = "Call" THEN           \* S5: v ~> f(a)  ==  f(v, a)
                 Eval([node.r EXCEPT !.args = <<node.l>> \o @], ctx, f, st)
